@@ -28,8 +28,8 @@ def exact_clip(x1, y1, x2, y2, x0, y0, xm, ym):
     return t0, t1
 
 
-def check(vals):
-    x1, y1, x2, y2, x0, y0, xm, ym = [F(v) for v in vals]
+def check(vals, tol_scale=1e-9):
+    x1, y1, x2, y2, x0, y0, xm, ym = [F(float(v)) if not isinstance(v, str) or '/' not in v else F(v) for v in vals]
     exp = exact_clip(x1, y1, x2, y2, x0, y0, xm, ym)
     try:
         acc, seg = pu.clip_segment([[float(x1), float(y1)], [float(x2), float(y2)]], [[float(x0), float(y0)], [float(xm), float(ym)]])
@@ -39,12 +39,17 @@ def check(vals):
     tol = 1e-9 * scale
     if exp is None:
         if acc:
+            # acceptance of a segment that misses the rectangle by less than the tolerance is allowed; the returned ends must
+            # still be within tolerance of the rectangle
+            if all(float(x0) - tol <= gx <= float(xm) + tol and float(y0) - tol <= gy <= float(ym) + tol for gx, gy in seg):
+                return None, None
             return f'accepted {seg}', 'reject (no part inside)'
         return None, None
     t0, t1 = exp
     if not acc:
         # rejection is allowed only if nothing is inside by more than the tolerance: a single touching point
-        if t0 == t1:
+        length = (float((x2 - x1) ** 2 + (y2 - y1) ** 2)) ** 0.5
+        if float(t1 - t0) * length <= tol:
             return None, None
         return 'rejected', f'accept with t in [{float(t0)}, {float(t1)}]'
     want = [[float(x1 + t0 * (x2 - x1)), float(y1 + t0 * (y2 - y1))], [float(x1 + t1 * (x2 - x1)), float(y1 + t1 * (y2 - y1))]]
@@ -78,3 +83,23 @@ def search(payload):
         if obs:
             return {'found': True, 'fails': True, 'input': v, 'observed': obs, 'expected': exp}
     return {'found': False}
+
+
+def float_sweep(payload):
+    """binary64 stand-in (bounded): segments whose supporting line passes through a corner of a rectangle with non-dyadic
+    coordinates -- the inputs on which the real-arithmetic proof says nothing (repeated clipping at the precision limit, failsafe exit)"""
+    rnd = random.Random(payload.get('seed', 0))
+    tried = 0
+    rects = [((0.1, 0.3), (0.7, 0.9)), ((-1.7, 0.2), (3.3, 0.9)), ((1e-3, 1e-3), (1e3, 7e2)), ((0.0, 0.0), (10.0, 10.0))]
+    steps = [1, 2, 3, 5, 7, 0.1, 0.3, 0.7, 1.1, -1, -3, -0.3]
+    reach = [0.5, 1, 2, 3, 0.1, 0.7]
+    for (x0, y0), (xm, ym) in rects:
+        for cx, cy in ((x0, y0), (xm, y0), (x0, ym), (xm, ym)):
+            for dx, dy in itertools.product(steps, repeat=2):
+                for before, after in ((rnd.choice(reach), rnd.choice(reach)) for _ in range(3)):
+                    seg = [cx - before * dx, cy - before * dy, cx + after * dx, cy + after * dy]
+                    tried += 1
+                    obs, exp = check([repr(v) for v in seg] + [repr(x0), repr(y0), repr(xm), repr(ym)], tol_scale=1e-9)
+                    if obs:
+                        return {'found': True, 'input': {'segment': seg, 'bounds': [[x0, y0], [xm, ym]]}, 'observed': obs, 'expected': exp, 'tried': tried}
+    return {'found': False, 'tried': tried, 'bound': f'{tried} corner-line segments over 4 rectangles (non-dyadic coordinates), tolerance 1e-9 x coordinate scale'}
